@@ -9,7 +9,7 @@
    library; WF says these bound the world's two libraries).  `q` = one boolean per defective
    call site (on = the Go code today); quirks_off is the repaired model. *)
 From Coq Require Import List String Bool.
-From Arrai Require Import Sys.Sandbox Sys.SandboxGen Gen.Stdlib Proofs.SandboxP.
+From Arrai Require Import Sys.Sandbox Sys.SandboxGen Gen.Stdlib Proofs.SandboxP Sys.SandboxHist Proofs.SandboxHistP.
 Import ListNotations.
 Open Scope string_scope.
 Open Scope list_scope.
@@ -147,3 +147,60 @@ Example C18_nonvacuous :
             incl (auth gen_S gen_F v) (auth gen_S gen_F (lib_or_safe gen_world (Some nv_lib)) ++ auth gen_S gen_F nv_scope).
 Proof. exact nonvacuous. Qed.
 Print Assumptions C18_nonvacuous.
+
+(* (8) Histories of evaluators (Sys/SandboxHist.v).  A run creates several evaluators and uses
+       them in some order; a use is (the function `X.eval` evaluates to, the source value).
+       `hist_run q w f keq m h` runs the uses in order through a machine that remembers ONE
+       (config, scope) pair and consults it with the key comparison keq; std_eval.go today is
+       keq = no_memo (contextualEval rebuilds the scope from the config of THIS call, nothing is
+       kept).  Every use of a history gives exactly what that use gives alone: what a sandboxed
+       source reaches is a function of its own (config, source), whatever evaluator was created
+       or used before it - from any memo state m. *)
+Theorem C18_evaluator_uses_are_independent :
+  forall q w f m h, hist_run q w f no_memo m h = map (use_alone q w f) h.
+Proof. exact evaluator_uses_are_independent. Qed.
+Print Assumptions C18_evaluator_uses_are_independent.
+
+(* a call of an evaluator is: its own config parsed, its scope built from that, the source run in it *)
+Theorem C18_evaluator_call_uses_own_config :
+  forall q w f cfg va,
+  apply q w (S f) (VEvalWith cfg) va =
+  match scope_of w cfg with Some env => use_in_env q w f env va | None => (Err, []) end.
+Proof. exact apply_evalwith. Qed.
+Print Assumptions C18_evaluator_call_uses_own_config.
+
+(* (8b) The obligation of any reuse between evaluator calls, explicit: if equal keys build equal
+        scopes (key_sound) the reuse is invisible ... *)
+Theorem C18_evaluator_uses_independent_under_sound_key :
+  forall q w f keq m h, key_sound w keq -> memo_ok w m ->
+  hist_run q w f keq m h = map (use_alone q w f) h.
+Proof. exact evaluator_uses_independent_under_sound_key. Qed.
+Print Assumptions C18_evaluator_uses_independent_under_sound_key.
+
+(* ... and value equality as rel.Closure.Equal computes it (function body only, captured scope
+   ignored) is NOT such a key: with the evaluator factory
+     let mk = \r //eval.evaluator((scope: (read: \p r(p)))); A = mk(\u (capA: ..)); B = mk(\u (denied: ..))
+   B used right after A is served A's scope and its source obtains capA. *)
+Theorem C18_memo_keyed_by_closure_blind_equal_refuted :
+  exists w t a b,
+    run_top quirks_off w 40 factory_setup = (Val t, []) /\
+    evaluator_fn t "A" = Some a /\ evaluator_fn t "B" = Some b /\
+    let h := [ {| u_fn := a; u_src := read_probe |}; {| u_fn := b; u_src := read_probe |} ] in
+    map (use_alone quirks_off w 40) h = [ (Val capA_val, []); (Val denied_val, []) ] /\
+    hist_run quirks_off w 40 closure_blind_equal None h = [ (Val capA_val, []); (Val capA_val, []) ].
+Proof. exact memo_keyed_by_closure_blind_equal_refuted. Qed.
+Print Assumptions C18_memo_keyed_by_closure_blind_equal_refuted.
+
+Theorem C18_closure_blind_equal_not_key_sound : exists w, ~ key_sound w closure_blind_equal.
+Proof. exact closure_blind_equal_not_key_sound. Qed.
+Print Assumptions C18_closure_blind_equal_not_key_sound.
+
+(* hypotheses of (8b) are satisfiable by a key that does hit the memo *)
+Example C18_sound_key_example :
+  (forall w, key_sound w both_unit) /\
+  memo_ok tiny_world (Some (VTupNil, VTupCons pkg tiny_lib VTupNil)) /\
+  let u := {| u_fn := VEvalWith VTupNil; u_src := VSrc RString (EDot EPkg "eval") |} in
+  hist_run quirks_off tiny_world 10 both_unit None [u; u] = map (use_alone quirks_off tiny_world 10) [u; u] /\
+  snd (hstep quirks_off tiny_world 10 both_unit None u) <> None.
+Proof. exact (conj key_sound_both_unit (conj memo_ok_unit both_unit_history_hits_the_memo)). Qed.
+Print Assumptions C18_sound_key_example.
